@@ -132,7 +132,8 @@ func valueUniverse(r *rand.Rand, u *Universe, n int) []V {
 			vals = append(vals, ANum(ord, rep))
 		}
 	}
-	for _, s := range []string{"", "a", "ab", "abc", "b", "\x00", "\x00\x00", "a\x00", "a\x00b", "a\x01", "\xff", "\xff\xff", "a\xff", "a\xffb", "\xff\x00", "\x00\xff", "é", "z"} {
+	for _, s := range []string{"", "a", "ab", "abc", "b", "\x00", "\x00\x00", "a\x00", "a\x00b", "a\x01", "\xff", "\xff\xff", "a\xff", "a\xffb", "\xff\x00", "\x00\xff", "é", "z",
+		"\xff\x01", "a\xff\x01b", "\x00\x01", "\x00\xff\x01"} {
 		vals = append(vals, AStr(s))
 	}
 	vals = append(vals, ABool(false), ABool(true))
@@ -405,6 +406,7 @@ func scanValues(u *Universe) []V {
 		return append(vals, AStr(""), AStr("\xff"), AStr("\xff\xff"), ABool(true))
 	}
 	return []V{ANil(), ANum(6, "i"), ANum(8, "i"), ANum(8, "f"), ANum(9, "f"), ANum(10, "i"), ANum(11, "u"), AStr(""), AStr("a"), AStr("a\x00"), AStr("ab"),
+		AStr("a\xff\x01b"), AStr("a\x00\x01"), AStr("\xff\x01"),
 		ABool(false), ABool(true), ATime(0, 0), ATime(3, 1), AArr(), AArr(ANum(8, "i")), AObj(), AObj("a", ANum(8, "i"))}
 }
 
